@@ -169,6 +169,12 @@ def run(ctx: Ctx):
     check_missing_table(ctx, "R13.a")
 
     ctx.rule("R13.b", "sibling agreement: rhs, monitor_values, missing_values and scheme all unpack the missing variables, append the formal under the same condition and hand the block to the template; both python templates splice it before the body", floor=16)
+    # the formal `missing_variables` is appended to the argument list the helpers return: a helper that remembers its
+    # result hands the *same list* to the next scheme, which appends again (duplicate formal, or the formal leaking into
+    # the functions of a model that has no missing variables)
+    from .c12 import check_generator_purity
+
+    check_generator_purity(ctx, "R13.b", classes=(("codegen/base.py", "CodeGenerator"), ("codegen/python.py", "PythonCodeGenerator"), ("codegen/c.py", "CCodeGenerator"), ("codegen/jax.py", "JaxCodeGenerator")))
 
     from sa import av as _avb13
 
